@@ -407,6 +407,49 @@ def _defrag_scans_the_cache(ex, st, post, result):
     yield ('bundles_of_this_cache_only', g, "the bundles worked on are those matching <cache_dir>/L??/R????C????.bundle")
 
 
+# ---- the property's own statement as a BOUNDED check on real caches: defragmentation changes no tile, files do not grow ---------------
+_DEFRAG_BEFORE = {}
+
+
+def _cache_view(cache):
+    import glob, os
+    from mapproxy.cache.tile import Tile
+    view = {}
+    for f in glob.glob(os.path.join(cache.cache_dir, 'L??', 'R????C????.bundle')):
+        level = int(os.path.basename(os.path.dirname(f))[1:])
+        r, c = int(os.path.basename(f)[1:5], 16), int(os.path.basename(f)[6:10], 16)
+        # (the addresses the generator can have touched, and their neighbours)
+        for y in (0, 1, 2, 62, 63, 64, 65, 122, 123, 124, 125, 126, 127):
+            for x in (0, 1, 2, 126, 127):
+                t = Tile((c + x, r + y, level))
+                if cache.load_tile(t):
+                    view[t.coord] = t.source.as_buffer().read()
+    sizes = dict((f, os.path.getsize(f)) for f in glob.glob(os.path.join(cache.cache_dir, 'L??', '*')))
+    return view, sizes
+
+
+def _gen_defrag(gen, rng):
+    rows = [0, 1, 63, 64, 123, 124, 125, 126, 127]
+    pool = [(rng.choice([0, 1, 127]) + 128 * bx, rng.choice(rows) + 128 * by, z) for bx, by, z in
+            [(0, 0, 8), (0, 0, 8), (0, 0, 8), (1, 0, 8), (0, 1, 9), (0, 0, 9)] for _ in range(2)]
+    pool = sorted(set(pool))
+    stored = rng.sample(pool, rng.randint(1, len(pool)))
+    over = rng.sample(stored, rng.randint(0, len(stored)))
+    removed = rng.sample(stored, rng.randint(0, max(0, len(stored) // 3)))
+    return {'cache': {'$cls': '$compact_cache', 'version': rng.choice([1, 2]), 'stored': [list(c) for c in stored],
+                      'overwritten': [list(c) for c in over], 'removed': [list(c) for c in removed], 'snapshot': True},
+            'min_percent': 0.0, 'min_bytes': 0}
+
+
+def _defrag_changes_no_tile(args, result):
+    """after defrag_compact_cache (any threshold) every address of the cache returns the bytes it returned before, nothing appears or
+    disappears, and no bundle file is larger than before"""
+    cache = args['cache']
+    before, sizes0 = cache._pyvc_before
+    after, sizes1 = _cache_view(cache)
+    return after == before and all(sizes1[f] <= sizes0.get(f, sizes1[f]) for f in sizes1)
+
+
 contract('mapproxy.script.defrag:defrag_compact_cache', props=['C19'],
          types=dict(cache='opaque', min_percent='real', min_bytes='int', log_progress='opt[opaque]', dry_run='bool'),
          returns='none', default_callee='opaque',
@@ -421,7 +464,8 @@ contract('mapproxy.script.defrag:defrag_compact_cache', props=['C19'],
                 # (nothing counts as copied before the first row was looked at)
                 'var:y': dict(inv=['len(_seq) == 128', 'implies(_k == 0, not stored_tiles)'],
                         types={'stored_tiles': 'bool', 'tiles': 'opaque'}, body_trace=[_defrag_row])},
-         trace=[_defrag_scans_the_cache])
+         trace=[_defrag_scans_the_cache],
+         ensures=[_defrag_changes_no_tile], fuzz_gen=_gen_defrag, bounded=dict(n=40, seconds=15))
 
 
 # ---- v1 bundle (.bundlx index + .bundle data): which slot is read / written for which address -------------------------------
